@@ -51,6 +51,39 @@ def _recs(ev, path, args, follow=None):
     return ev.collect_ifs(path, args, follow=follow)
 
 
+_WRAP = re.compile(r"^sym\(call:(?:<alloc::vec::Vec<T, A> as core::ops::deref::Deref>::deref|core::slice::<impl \[T\]>::iter|<&'a alloc::vec::Vec<T, A> as core::iter::traits::collect::IntoIterator>::into_iter)\((.*)\)\)$")
+
+
+def _unwrap_list(k):
+    while True:
+        m = _WRAP.match(k)
+        if not m:
+            return k
+        k = m.group(1)
+
+
+def membership_hooks(ev, present, seen):
+    """call hooks that decide a membership test (`list.contains(&x)` or `list.iter().any(|e| *e == x)`) as `present`
+    and note (list, element) in `seen`; a test of another shape is left undecided"""
+    def contains(n, a):
+        seen.append((_unwrap_list(vkey(a[0])), vkey(a[1])))
+        return Cond("true" if present else "false")
+
+    def any_(n, a):
+        if len(a) == 2 and isinstance(a[1], tuple) and a[1] and a[1][0] == "closure":
+            try:
+                c = ckey(ev.as_cond(ev.call_closure(a[1], [Sym("ELEM")], 1)))
+            except Unsupported:
+                return None
+            m = re.fullmatch(r"symc\(sym\(Eq\(sym\(ELEM\),(.*)\)\)\)", c) or re.fullmatch(r"symc\(sym\(Eq\((.*),sym\(ELEM\)\)\)\)", c) \
+                or re.fullmatch(r"Eq\(sym\(ELEM\),(.*)\)", c) or re.fullmatch(r"Eq\((.*),sym\(ELEM\)\)", c)
+            if m:
+                seen.append((_unwrap_list(vkey(a[0])), m.group(1)))
+                return Cond("true" if present else "false")
+        return None
+    return [(lambda fn_, r_: (r_ or fn_).endswith("::contains"), contains), (lambda fn_, r_: (r_ or fn_).endswith("Iterator>::any") or fn_.endswith("Iterator::any"), any_)]
+
+
 def run(ctx, rep):
     f = ctx.facts()
     ev = Evaluator(f)
@@ -282,10 +315,7 @@ def r141(ctx, rep, f, ev, cg, reach):
         cargs = []
         got = {}
         for case in (True, False):
-            def hk(n, a, case=case):
-                cargs.append(tuple(re.sub(r"^sym\(call:<alloc::vec::Vec<T, A> as core::ops::deref::Deref>::deref\((.*)\)\)$", r"\1", vkey(x)) for x in a))
-                return Cond("true" if case else "false")
-            got[case] = _events(ST + m, [(lambda fn_, r_: (r_ or fn_).endswith("::contains"), hk)])
+            got[case] = _events(ST + m, membership_hooks(ev, case, cargs))
         want = {True: [], False: sorted([("call", "push", ("sym(self.%s)" % fld, "sym(x)"), ()), ("call", "send", ("sym(self.reporter)", "InputStatType::%s(0=sym(x))" % var), ())])}
         ok = got[True] == [] and got[False] is not None and sorted(got[False]) == want[False] and set(cargs) == {("sym(self.%s)" % fld, "sym(x)")}
         rep.check(ok, "R14.1", "R14.1|unique|%s" % m, "%s: reported and remembered once per distinct value" % m, WST, "%s: membership test %s; events when present %s, when absent %s" % (m, sorted(set(cargs)), got[True], got[False]))
@@ -582,7 +612,7 @@ def r143(ctx, rep, f, ev, cg, reach):
         for o in recs:
             op, lhs, rhs = o["assign"]
             m = re.fullmatch(r"sym\(self\.(\w+)\)", lhs)
-            m2 = re.fullmatch(r"sym\(boolcast\(any\(T\[(\d+)\]\)\)\)", rhs)
+            m2 = re.fullmatch(r"\{b0=T\[(\d+)\]\}", rhs)   # the value (0 or 1) of one bit of the trigger field
             if op == "AddAssign" and m and m2 and not o["guard"]:
                 got.setdefault(m.group(1), []).append(int(m2.group(1)))
             else:
@@ -732,12 +762,21 @@ def r144(ctx, rep, f, ev, cg, reach):
         rep.check(guarded >= 1 and unguarded == 0, "R14.5", "R14.5|codes|unique", "a code is added only if not already present", W, "guarded pushes: %d, unguarded: %d" % (guarded, unguarded))
     # set-valued statistics
     ev.watch = lambda c: c.endswith("::push")
+    # decided per outcome of the membership test (contains / iter().any(== x); if-not or early-return form)
     for p_, fld in ((RS + "record_fee_observed", "fee_id"), ("fastpasta::stats::stats_collector::its_stats::ItsStats::record_layer_stave_seen", "layer_staves_seen")):
-        recs = _recs(ev, p_, [Sym("self"), Sym("x")])
-        psh = [o for o in recs if "call" in o]
-        ok = len(psh) == 1 and psh[0]["args"] == ["sym(self.%s)" % fld, "sym(x)"] and len(psh[0]["guard"]) == 1 and psh[0]["guard"][0].startswith("symc(sym(Not(sym(call:core::slice::<impl [T]>::contains(") \
-            and ("self.%s" % fld) in psh[0]["guard"][0] and psh[0]["guard"][0].endswith(",sym(x))))))")
-        rep.check(ok, "R14.5", "R14.5|unique|%s" % fld, "%s holds each value once" % fld, p_, "%s: %s" % (p_.split("::")[-1], [(o["args"], o["guard"]) for o in psh]))
+        seen_, got = [], {}
+        for present in (True, False):
+            ev.call_hooks = membership_hooks(ev, present, seen_)
+            try:
+                recs = _recs(ev, p_, [Sym("self"), Sym("x")], follow=lambda c: c.rsplit("::", 1)[0] == p_.rsplit("::", 1)[0])
+                got[present] = [(o["call"].split("::")[-1], o["args"], [g for g in o["guard"] if g not in ("true", "not false")]) for o in recs
+                                if "call" in o and not any(g in ("false", "not true") for g in o["guard"])]
+            except Unsupported:
+                got[present] = None
+            finally:
+                ev.call_hooks = []
+        ok = got[True] == [] and got[False] == [("push", ["sym(self.%s)" % fld, "sym(x)"], [])] and set(seen_) == {("sym(self.%s)" % fld, "sym(x)")}
+        rep.check(ok, "R14.5", "R14.5|unique|%s" % fld, "%s holds each value once" % fld, p_, "%s: membership test %s; pushes when present %s, when absent %s" % (p_.split("::")[-1], sorted(set(seen_)), got[True], got[False]))
     ev.watch = None
     # process_unique_error_codes covers both message lists
     pu = ES + "process_unique_error_codes"
